@@ -8,8 +8,8 @@
 
 namespace {
 struct Local { uint64_t states = 0, transitions = 0, replays = 0, backend_failures = 0, overflow_refusals = 0, max_depth = 0; std::map<Str, uint64_t> by_op; };
-static const size_t SZ[] = { 0, 1, 7, 8, 24, 4096, (size_t)-1, (size_t)-1 - 7, (size_t)-1 - 8, ((size_t)-1) / 2 + 1 };
-enum { NSZ = 10, MAXLIVE = 3 };
+static const size_t SZ[] = { 0, 1, 7, 8, 24, 4096, (size_t)-1, (size_t)-1 - 7, (size_t)-1 - 8, ((size_t)-1) / 2 + 1, ((size_t)-1) / 3 * 2 + 44 };   // the last: any padding or rounding of it wraps to a small number
+enum { NSZ = 11, MAXLIVE = 3 };
 struct NM { size_t n, s; };
 static const NM NMS[] = { { 0, 0 }, { 0, 5 }, { 5, 0 }, { 3, 5 }, { 1, 24 }, { (size_t)1 << 32, (size_t)1 << 32 }, { 3, ((size_t)-1) / 2 }, { (size_t)-1, 1 }, { 2, ((size_t)-1) / 2 + 1 }, { 1, (size_t)-1 }, { 7, 600 } };
 enum { NNM = 11 };
@@ -171,6 +171,23 @@ void run(Ctx &ctx) {
             if (seen.insert(kk).second) { lc.states++; frontier.push_back(Node{ h }); }
         }
     }
+    // two completed managers over two different backends, alive at the same time: each must keep talking to its own backend
+    if (ctx.worker == 0) {
+        Machine a, b; int sig;
+        if ((sig = GUARD_ENTER()) != 0) ctx.violation("", "two`0", fmt("%s with two completed managers alive", signame(sig)));
+        else {
+            void *pa = a.mm.malloc(&a.mm, 24), *pb = b.mm.calloc(&b.mm, 3, 8); Str what;
+            if (!pa || !pb) what = "allocation failed";
+            else if (a.be.live.size() != 1 || b.be.live.size() != 1) what = fmt("after one allocation each the backends hold %zu and %zu blocks", a.be.live.size(), b.be.live.size());
+            else { pa = a.mm.realloc(&a.mm, pa, 4096); pb = b.mm.reallocarray(&b.mm, pb, 7, 600);
+                   if (!pa || !pb || a.be.live.size() != 1 || b.be.live.size() != 1) what = "after growing both blocks the backends do not hold one block each";
+                   a.mm.free(&a.mm, pa); b.mm.free(&b.mm, pb);
+                   if (what.empty() && (!a.be.live.empty() || !b.be.live.empty())) what = fmt("after freeing both blocks the backends still hold %zu and %zu blocks", a.be.live.size(), b.be.live.size()); }
+            if (what.empty() && (!a.be.errors.empty() || !b.be.errors.empty())) what = a.be.errors.empty() ? b.be.errors[0] : a.be.errors[0];
+            GUARD_LEAVE(); lc.replays++;
+            if (!what.empty()) ctx.violation("", "two`0", "two managers completed from different backends: " + what);
+        }
+    }
     // uriTestMemoryManager on the completed manager, and with each backend malloc failing in turn (documented codes only)
     if (ctx.worker == 0) {
         Machine m; int rc = uriTestMemoryManager(&m.mm);
@@ -185,7 +202,9 @@ void run(Ctx &ctx) {
     if (ctx.worker == 0) { ctx.st.count("alphabet", ops.size()); ctx.st.sample("m-1.4.0;r0.5.1;a0.3.0;f0.0.0  (malloc 24; realloc to 4096 with backend failure; reallocarray 3x5; free)"); ctx.st.sample("c-1.5.0  (calloc 2^32 x 2^32)"); ctx.st.sample("r-1.6.0  (realloc(NULL, SIZE_MAX))"); }
 }
 void replay(Ctx &ctx, const Str &enc) {
-    Local lc; if (enc.compare(0, 4, "test") == 0) { Machine m; int rc = uriTestMemoryManager(&m.mm); if (rc != URI_SUCCESS) ctx.violation("", enc, fmt("uriTestMemoryManager returned %d", rc)); return; }
+    Local lc; if (enc.compare(0, 3, "two") == 0) { Machine a, b; void *pa = a.mm.malloc(&a.mm, 24), *pb = b.mm.calloc(&b.mm, 3, 8); bool bad = !pa || !pb || a.be.live.size() != 1 || b.be.live.size() != 1; if (pa) a.mm.free(&a.mm, pa); if (pb) b.mm.free(&b.mm, pb);
+        if (bad || !a.be.live.empty() || !b.be.live.empty() || !a.be.errors.empty() || !b.be.errors.empty()) ctx.violation("", enc, "two managers completed from different backends do not keep to their own backend"); return; }
+    if (enc.compare(0, 4, "test") == 0) { Machine m; int rc = uriTestMemoryManager(&m.mm); if (rc != URI_SUCCESS) ctx.violation("", enc, fmt("uriTestMemoryManager returned %d", rc)); return; }
     std::vector<Op> h; for (auto &s : split(enc, ';')) { Op o; if (parse_op(s, o)) h.push_back(o); } Str v; replay_hist(ctx, lc, h, &v, 99); if (!v.empty()) ctx.violation("", enc, v);
 }
 Str coverage(const Ctx &, const Stats &st) {
